@@ -19,4 +19,7 @@ let () =
   | "c17u" -> per_line M_c17.uline
   | "c17e" -> per_line M_c17.eline
   | "c07" -> per_line M_c07.line
+  | "c06" -> per_line M_c06.line
+  | "c06v" -> per_line M_c06.vline
+  | "c06g" -> per_line M_c06.gline
   | _ -> prerr_endline ("unknown mode " ^ mode); exit 2
